@@ -264,6 +264,12 @@ inline void readBack(TC& c, Inst& in) {
 			const PlanVec v2 = readPlan(c.plan(), &ok2);
 			if (!samePlan(v2, in.actualPlan) || !ok2)
 				W->V("C10", "plan-and-cplan-disagree", fmt("Plan iteration %s vs CPlan iteration %s; %s", planStr(v2).c_str(), planStr(in.actualPlan).c_str(), W->tail().c_str()));
+			// ... and so must a const-qualified mutable handle (its own iterator type)
+			bool ok3 = true;
+			const auto constHandle = c.plan();
+			const PlanVec v3 = readPlan(constHandle, &ok3);
+			if (!samePlan(v3, in.actualPlan) || !ok3)
+				W->V("C10", "const-plan-handle-and-cplan-disagree", fmt("iteration through a const Plan handle %s vs CPlan iteration %s; %s", planStr(v3).c_str(), planStr(in.actualPlan).c_str(), W->tail().c_str()));
 		}
 	}
 	}
@@ -331,6 +337,13 @@ inline void checkControl(TC& c, Inst& in, Method m, uint8_t sid, const void* ev)
 
 	// C06 / C01: isActive(i) for every id vs the machine itself, at this very moment
 	const StateID machActive = in.obj->activeStateId();
+	uint32_t ctlSet = 0, ctlSetT = 0;   // which states the control names as active, asked by id / by type
+	for (unsigned i = 0; i < N; ++i) {
+		bool t = false;
+		FOR_STATE(i, T, t = c.template isActive<T>());
+		if (c.isActive(static_cast<StateID>(i))) ctlSet |= 1u << i;
+		if (t) ctlSetT |= 1u << i;
+	}
 	for (unsigned i = 0; i < N; ++i) {
 		const bool byCtl = c.isActive(static_cast<StateID>(i));
 		const bool byMach = in.obj->isActive(static_cast<StateID>(i));
@@ -355,6 +368,11 @@ inline void checkControl(TC& c, Inst& in, Method m, uint8_t sid, const void* ev)
 		const int got = machActive == ffsm2::INVALID_STATE_ID ? -1 : machActive;
 		if (got != expect)
 			w.V("C01", fmt("activeStateId-vs-enter-exit-pairing|in=%s", mname(m)), fmt("inside %s of %u the machine reports active state %d, but the state entered most recently without exit is %d; %s", mname(m), sid, got, expect, w.tail().c_str()));
+		// ... and user code observing through the control handed to this callback sees exactly that one state, whichever form it asks in
+		const uint32_t want = expect >= 0 ? 1u << expect : 0u;
+		if (got == expect && (ctlSet != want || ctlSetT != want))
+			w.V("C01", fmt("control-isActive-vs-enter-exit-pairing|form=%s|in=%s", ctlSet != want ? "id" : "type", mname(m)),
+				fmt("inside %s of %u the control names the active states {mask %x by id, %x by type}, but exactly state %d was entered most recently without exit; %s", mname(m), sid, ctlSet, ctlSetT, expect, w.tail().c_str()));
 	}
 
 	// C06: the request waiting to be processed
